@@ -191,7 +191,7 @@ HInst(q, r, j) ==
         \cup (IF k.group > 0 /\ Ann # {} THEN
                 LET Need == {i \in Seen \cup Must : Reacts(k, i) /\ i \notin StopC /\ i < End /\ Grp(i) = {}}
                 IN  {V({"C14"}, "trigger-skipped", i) : i \in {i \in Need : i \in Seen /\ LaterActivity(i)}}
-                    \cup {V({"C14", "C16"}, "missing-invocation", i) :
+                    \cup {V({"C14", "C15", "C16"}, "missing-invocation", i) :
                             i \in {i \in Need : settled /\ ((i \in Seen /\ ~LaterActivity(i)) \/ (i \notin Seen /\ SeenLB > N))}}
               ELSE {})
         \* ---- C06 script-visible isolation: ids listed by .cat / .head inside the script
